@@ -12,8 +12,12 @@ def limits(mem_gb: float = 6.0):
         pass
 
 
-class _Timeout(TimeoutError):
-    pass
+class HardTimeout(BaseException):
+    """Not an Exception on purpose: library code that catches Exception (the tokenizer wraps every Exception into
+    TokenError, the parser's _try_parse catches ParseError) must not be able to swallow the time limit."""
+
+
+_Timeout = HardTimeout
 
 
 @contextlib.contextmanager
@@ -22,7 +26,7 @@ def time_limit(seconds: float):
         raise _Timeout(f"exceeded {seconds}s")
 
     old = signal.signal(signal.SIGALRM, handler)
-    signal.setitimer(signal.ITIMER_REAL, seconds)
+    signal.setitimer(signal.ITIMER_REAL, seconds, 1.0)  # keeps firing every second should the first exception get lost
     try:
         yield
     finally:
